@@ -223,6 +223,24 @@ Definition LeakyReluRef (input_offset output_offset mult_identity shift_identity
     else cast32 (output_offset + MultiplyByQuantizedMultiplier input_value mult_alpha shift_alpha) in
   Z.min qmax (Z.max qmin unclamped_output).
 
+(* Prelu reference kernel (reference/prelu.h, 8-bit), one element, for an alpha tensor whose element is
+   alpha_code with zero point alpha_zero_point:
+     input_value = input_offset + input            (input_offset = -input zero point)
+     alpha_value = alpha_offset + alpha_data[...]  (alpha_offset = -alpha zero point)
+     output = input_value >= 0 ? MBQM(input_value, multiplier_1, shift_1)
+                               : MBQM(input_value * alpha_value, multiplier_2, shift_2);  + output_offset; clamp *)
+Definition PReluRef (input_zero_point output_zero_point alpha_zero_point alpha_code
+                     mult_1 shift_1 mult_2 shift_2 qmin qmax input : Z) : Z :=
+  let input_value := cast32 (input - input_zero_point) in
+  let output_value :=
+    if input_value >=? 0
+    then MultiplyByQuantizedMultiplier input_value mult_1 shift_1
+    else
+      let alpha_value := cast32 (alpha_code - alpha_zero_point) in
+      MultiplyByQuantizedMultiplier (cast32 (input_value * alpha_value)) mult_2 shift_2 in
+  let output_value := cast32 (output_value + output_zero_point) in
+  Z.min qmax (Z.max qmin output_value).
+
 (* Requantize<T,T>, one element (reference/requantize.h) *)
 Definition RequantizeRef (input_zero_point output_zero_point mult shift qmin qmax input : Z) : Z :=
   let input_v := cast32 (input - input_zero_point) in
@@ -249,6 +267,16 @@ Definition vela_lrelu_entry (zp_in zp_out identity_scale identity_shift alpha_sc
   else
     obind (GenFpMath.multiply_by_quantized_multiplier (x - zp_in) identity_scale identity_shift)
           (fun r => Some (clampZ qmin qmax (zp_out + r))).
+
+(* convert_prelu (constant alpha, equal in every channel) followed by convert_lrelu_to_lut:
+   convert_prelu stores op.attrs["alpha_scaling"] = (alpha.values.min() - alpha_zp, alpha_scale, alpha_shift) with
+   (alpha_scale, alpha_shift) = elementwise_mul_scale(ifm_scale, alpha tensor scale, ofm_scale), and
+   convert_lrelu_to_lut uses that triple for the negative half of the table *)
+Definition vela_prelu_alpha_scalar (alpha_code alpha_zp : Z) : Z := alpha_code - alpha_zp.
+Definition vela_prelu_entry (zp_in zp_out alpha_zp alpha_code identity_scale identity_shift alpha_scale alpha_shift
+                             qmin qmax x : Z) : option Z :=
+  vela_lrelu_entry zp_in zp_out identity_scale identity_shift (vela_prelu_alpha_scalar alpha_code alpha_zp)
+                   alpha_scale alpha_shift qmin qmax x.
 
 (* convert_hardswish_to_lut, one table entry, from the already quantised scales
    (out_scale, out_shift) = quantise_scale(ifm_scale/128/ofm_scale),
